@@ -88,8 +88,6 @@ for T, key, total in (('dsplib::arr_real', 'real', 'stddev * stddev'), ('dsplib:
        ghost={'RMSV': 'RealVal(0)'}, ghost_on=[('ret:rms', None, {'RMSV': 'arg'})],
        ensures=[('length', 'result.len == arr.len'),
                 ('noise_power', 'when(BoolVal(True), lambda: %s == (RMSV * POW(10, (-1 * snr) / 20)) * (RMSV * POW(10, (-1 * snr) / 20)))' % total)])
-fn('dsplib::rms', 'lib/math.cpp', sig='dsplib::real_t (const dsplib::arr_cmplx &)', key='rms(cmplx)', serves=['C17'], trusted=True, pure=True,
-   requires=['arr.len >= 1'], notes='assumed: sqrt(mean |x|^2)', ensures=[('nonneg', 'result >= 0')])
 fn('dsplib::complex', 'lib/math.cpp', sig='(const dsplib::arr_real &, const dsplib::arr_real &)', key='complex(re,im)', serves=['C17', 'C05'],
    pure=True, throws='re.len != im.len',
    ensures=[('length', 'result.len == re.len'),
